@@ -560,6 +560,88 @@ func TestVerifC16(t *testing.T) {
 		}
 	}
 
+	// 3b. present-or-absent is not a matter of the value: every assignment of {absent, None, 1 (, 0)} to three keys, one
+	// of which is None itself.  None is what Mapping.Get hands back for a key that is NOT there, so a key bound to None
+	// (kept, changed to/from None, removed, added) is the family in which "present" and "value is not None" part.
+	// Each pair is also diffed one level down: as the value of a key of an outer dict (nested mapping diff), and as the
+	// only element of a tuple (mapping diff inside a replace edit).
+	{
+		nkeys := []starlark.Value{starlark.None, starlark.String("k"), c16int(1)}
+		nvals := []starlark.Value{nil, starlark.None, c16int(1)}
+		if geti("VERIF_NONEVALS", 3) > 3 {
+			nvals = append(nvals, c16int(0))
+		}
+		var nassigns [][]starlark.Value
+		var nrec func(cur []starlark.Value)
+		nrec = func(cur []starlark.Value) {
+			if len(cur) == len(nkeys) {
+				nassigns = append(nassigns, append([]starlark.Value{}, cur...))
+				return
+			}
+			for _, v := range nvals {
+				nrec(append(cur, v))
+			}
+		}
+		nrec(nil)
+		mkN := func(as []starlark.Value, reverse bool) *starlark.Dict {
+			d := starlark.NewDict(len(as))
+			for i := range as {
+				j := i
+				if reverse {
+					j = len(as) - 1 - i
+				}
+				if as[j] != nil {
+					d.SetKey(nkeys[j], as[j])
+				}
+			}
+			return d
+		}
+		for xi, x := range nassigns {
+			for yi, y := range nassigns {
+				rev := (xi+yi)%2 == 0
+				g.pair("dict-none", mkN(x, false), mkN(y, rev))
+				o1, o2 := starlark.NewDict(2), starlark.NewDict(2)
+				o1.SetKey(starlark.String("same"), starlark.None)
+				o1.SetKey(starlark.String("env"), mkN(x, false))
+				o2.SetKey(starlark.String("same"), starlark.None)
+				o2.SetKey(starlark.String("env"), mkN(y, rev))
+				g.pair("dict-none-nested", o1, o2)
+				g.pair("dict-none-in-tuple", starlark.Tuple{mkN(x, false)}, starlark.Tuple{mkN(y, rev)})
+			}
+		}
+		// one key going from any to any of the values that read as "nothing" (None, 0, "", b"", (), [], {}) or absent,
+		// next to a second key that is unchanged / changed / added / removed
+		zero := func() []starlark.Value {
+			return []starlark.Value{nil, starlark.None, c16int(0), starlark.String(""), starlark.Bytes(""), starlark.Tuple{},
+				starlark.NewList(nil), starlark.NewDict(0), c16int(1)}
+		}
+		ctx := [][2]starlark.Value{{c16int(1), c16int(1)}, {c16int(1), c16int(2)}, {nil, c16int(1)}, {c16int(1), nil}, {starlark.None, starlark.None}}
+		for i := range zero() {
+			for j := range zero() {
+				for ci, c := range ctx {
+					o, n := starlark.NewDict(2), starlark.NewDict(2)
+					set := func(d *starlark.Dict, k string, v starlark.Value) {
+						if v != nil {
+							d.SetKey(starlark.String(k), v)
+						}
+					}
+					if ci%2 == 0 {
+						set(o, "z", zero()[i])
+						set(o, "o", c[0])
+						set(n, "o", c[1])
+						set(n, "z", zero()[j])
+					} else {
+						set(o, "o", c[0])
+						set(o, "z", zero()[i])
+						set(n, "z", zero()[j])
+						set(n, "o", c[1])
+					}
+					g.pair("dict-zero", o, n)
+				}
+			}
+		}
+	}
+
 	// 4. different kinds (literal diffs), and depth limits
 	lits := []starlark.Value{starlark.None, c16int(0), c16int(1), starlark.String(""), starlark.String("a"),
 		starlark.Bytes("a"), starlark.Tuple{}, starlark.Tuple{c16int(0)}, starlark.NewList(nil), starlark.NewDict(0), d1}
